@@ -297,7 +297,9 @@ type incarnation struct {
 
 type sched struct {
 	w       *world
-	kind    string // partition | group
+	kind    string // partition | group | partition-noise1|2 | group-noise1|2 (ids that differ only in path noise)
+	part    []metadata.PartitionID
+	grp     []string
 	nb, nr  int
 	mgr     []*incarnation
 	acq     map[[2]int]*thread
@@ -309,15 +311,29 @@ type sched struct {
 var partRes = []metadata.PartitionID{{Topic: "orders", Partition: 0}, {Topic: "orders", Partition: 1}, {Topic: "pay.v1", Partition: 7}, {Topic: "orders", Partition: 10}}
 var groupRes = []string{"g0", "g1", "billing", "g10"}
 
+// Resource ids that are DIFFERENT strings (different entries of LeaseManager.owned, different lease keys as long as the key
+// is prefix + "/" + id) but that a path-cleaning key function (path.Join, path.Clean) maps to one etcd key.  Group ids are
+// not validated anywhere; the lease managers take topic names as they come.
+var noisePart = map[string][]metadata.PartitionID{
+	"partition-noise1": {{Topic: "a/b", Partition: 0}, {Topic: "a//b", Partition: 0}, {Topic: "a/./b", Partition: 0}, {Topic: "a/b/", Partition: 0}},
+	"partition-noise2": {{Topic: "", Partition: 0}, {Topic: ".", Partition: 0}, {Topic: "x/../a", Partition: 0}, {Topic: "a", Partition: 0}},
+}
+var noiseGroup = map[string][]string{
+	"group-noise1": {"team-a/ingest", "team-a//ingest", "team-a/./ingest", "team-a/ingest/"},
+	"group-noise2": {"", ".", "g", "g/"},
+}
+
+func (s *sched) isGroup() bool { return strings.HasPrefix(s.kind, "group") }
+
 func (s *sched) resID(r int) string {
-	if s.kind == "group" {
-		return groupRes[r]
+	if s.isGroup() {
+		return s.grp[r]
 	}
-	return fmt.Sprintf("%s/%d", partRes[r].Topic, partRes[r].Partition)
+	return fmt.Sprintf("%s/%d", s.part[r].Topic, s.part[r].Partition)
 }
 
 func (s *sched) prefix() string {
-	if s.kind == "group" {
+	if s.isGroup() {
 		return metadata.GroupLeasePrefix()
 	}
 	return metadata.PartitionLeasePrefix()
@@ -332,7 +348,8 @@ func (s *sched) newIncarnation(b int) *incarnation {
 	inc.client = c
 	logger := slog.New(slog.NewTextHandler(io.Discard, nil))
 	id := fmt.Sprintf("b%d", b)
-	if s.kind == "group" {
+	partRes, groupRes := s.part, s.grp
+	if s.isGroup() {
 		m := metadata.NewGroupLeaseManager(c, metadata.GroupLeaseConfig{BrokerID: id, LeaseTTLSeconds: 120, Logger: logger})
 		inc.lm = m.VerifLM()
 		inc.acq = func(ctx context.Context, r int) error { return m.Acquire(ctx, groupRes[r]) }
@@ -387,7 +404,13 @@ func newSched(w *world, kind string, nb, nr int) *sched {
 	w.leaseName = map[clientv3.LeaseID]int{}
 	w.nextLease = 0
 	w.mu.Unlock()
-	s := &sched{w: w, kind: kind, nb: nb, nr: nr, acq: map[[2]int]*thread{}}
+	s := &sched{w: w, kind: kind, nb: nb, nr: nr, acq: map[[2]int]*thread{}, part: partRes, grp: groupRes}
+	if ps, ok := noisePart[kind]; ok {
+		s.part = ps
+	}
+	if gs, ok := noiseGroup[kind]; ok {
+		s.grp = gs
+	}
 	for b := 0; b < nb; b++ {
 		s.mgr = append(s.mgr, s.newIncarnation(b))
 	}
@@ -824,7 +847,9 @@ func main() {
 			}
 			nb, _ := strconv.Atoi(f[2])
 			nr, _ := strconv.Atoi(f[3])
-			if nb < 1 || nb > 4 || nr < 1 || nr > 4 {
+			_, np := noisePart[f[4]]
+			_, ng := noiseGroup[f[4]]
+			if nb < 1 || nb > 4 || nr < 1 || nr > 4 || !(f[4] == "partition" || f[4] == "group" || np || ng) {
 				fmt.Fprintln(out, "bad-op")
 				continue
 			}
